@@ -105,6 +105,12 @@ CLAIMED = {
             'reachable and the iteration restarts only after propagate() and solve(); the due pulse is erased once, last; every failed bound assertion is analysed or reported; constants cannot be delayed; '
             'build_timelines keeps active, non-past atoms; adaptation clause {!sigma, !xi, sigma_xi}. Validity of the adapted plan (C01 on the re-solved problem) and exactly-once over a whole history are not decided.',
             'Analysed in configuration F only (the executor is not part of the pinned build).', 'DESIGN.md 4 C19'),
+    'C20': ('structural comparison of the PARALLELIZE build with the sequential build (function inventory, task body == sequential loop body modulo lock_guard), RAII lockset analysis of the task, capture / store privacy rules, CFG must-pass of join(), mutex-sizing pairing, monitor protocol of thread_pool',
+            'Static (PARALLELIZE=ON configurations P_par and F against the pinned P): the only code that differs between the builds is pivot / new_var / the copy constructor and the pool; each pivot task executes exactly the statements of the sequential row update; '
+            'every watch-list access of a task holds the mutex of that list; tasks own their row, copy their inputs and touch no other member; every path joins the pool before the tableau is used again; mutexes are sized with the watch lists; '
+            'the pool counts tasks in the dequeuing critical section and join() waits for active == 0 && tasks.empty(). Decides race-freedom and per-row result equality structurally; schedule-independence of the iteration order of the '
+            'unordered watch sets (hence of which conflict is reported first) is runtime behaviour and not decided.',
+            'Trusts the C++ memory model for std::mutex / condition_variable and the reviewed table of PARALLELIZE-dependent functions in orv/rules/C20.py.', 'DESIGN.md 4 C20'),
 }
 
 NOT_YET = {}
